@@ -797,6 +797,10 @@ func genLoaderFuzz(r *rand.Rand, n int) []*Probe {
 				}
 			}
 		}
+		if r.Intn(4) == 0 {
+			// what is done with a freshly loaded (possibly empty, possibly column-less) table besides printing it
+			sql = strings.Replace(sql, "SELECT * FROM", []string{"SELECT COUNT(*) FROM", "SELECT DISTINCT * FROM", "SELECT ROW_NUMBER() OVER () FROM", "SELECT COUNT(*), MIN(1) FROM"}[r.Intn(4)], 1)
+		}
 		args = append(args, "-f", outFmt)
 		if outFmt == "CSV" {
 			args = append(args, "--enclose-all")
